@@ -207,6 +207,12 @@ func (r *runner) call(name string, f func()) {
 		harness.ExitHung()
 	}
 	if psig != "" {
+		if strings.HasPrefix(psig, "panic-chan:") && r.c.Family == "malformed" {
+			// a send on a channel that TNC.close() has closed, after the link was dropped: the known finding
+			// (the generated cases do not overlap the loss with a call, but the library's own clean-up runs
+			// asynchronously)
+			psig = knownLinkLossSig
+		}
 		r.fail(psig, "%s: %s", name, pmsg)
 	}
 }
